@@ -77,6 +77,12 @@ def normalise(text):
                 out.append(f"{c.group(1)} -> (ret: {c.group(2)})")
                 out.append(" " * indent_of(line) + "{")
                 continue
+        td = re.match(r"^(\s*)(fn\b.*\)) -> (.+);$", line)
+        if td:
+            # trait method declaration: `fn f(..) -> T;`  ->  `fn f(..) -> (ret: T)` / `;` (room for requires/ensures)
+            out.append(f"{td.group(1)}{td.group(2)} -> (ret: {td.group(3)})")
+            out.append(td.group(1) + ";")
+            continue
         m = HEAD_RE.match(line)
         if m:
             head = m.group(1) + m.group(2)
